@@ -733,7 +733,7 @@ private:
         }
         if (command == "STOP") {
             metrics_.command_stop_requests_total.fetch_add(1, std::memory_order_relaxed);
-            handle_stop(client, remote_identity);
+            handle_stop(client, request, remote_identity);
             return;
         }
         if (command == "LIST") {
@@ -822,7 +822,36 @@ private:
                   std::move(log_fields));
     }
 
-    void handle_stop(NativeSocket client, const std::string& remote_identity) {
+    // Returns an error response when the daemon has a control token and the request does not carry exactly that token.
+    std::optional<ControlFields> authentication_error(const ParsedRequest& request, std::string_view command) {
+        std::optional<std::string> control_token;
+        {
+            std::scoped_lock lock(node_mutex_);
+            control_token = node_.config().control_token;
+        }
+        if (!control_token.has_value()) {
+            return std::nullopt;
+        }
+        const std::string code = "ERR_" + std::string(command) + "_UNAUTHENTICATED";
+        const auto token_it = request.fields.find("TOKEN");
+        if (token_it == request.fields.end()) {
+            return make_error(code, "Control token required", "Provide --control-token when invoking the CLI");
+        }
+        if (!constant_time_equal(*control_token, token_it->second)) {
+            return make_error(code, "Invalid control token", "Verify the shared secret configured on the daemon");
+        }
+        return std::nullopt;
+    }
+
+    void handle_stop(NativeSocket client, const ParsedRequest& request, const std::string& remote_identity) {
+        if (auto error = authentication_error(request, "STOP")) {
+            log_event(StructuredLogger::Level::Warning,
+                      "control.command.stop",
+                      {{"remote", remote_identity}, {"status", "error"}, {"reason", "auth"}});
+            send_response(client, std::move(*error), false);
+            return;
+        }
+
         const bool should_stop_transport = !transport_stopped_.exchange(true, std::memory_order_acq_rel);
 
         bool invoked_shutdown = false;
@@ -1229,6 +1258,12 @@ private:
             log_event(StructuredLogger::Level::Warning, "control.command.fetch", std::move(log_fields));
             send_response(client, std::move(fields), false);
         };
+
+        // Authenticate before anything is registered, read or written on behalf of the request.
+        if (auto error = authentication_error(request, "FETCH")) {
+            respond_error(std::move(*error), "auth", true, false);
+            return;
+        }
 
         const auto& fields = request.fields;
         const auto manifest_it = fields.find("MANIFEST");
